@@ -15,9 +15,14 @@
   result's exponent is `e3 − scale`, and `e3 − scale > emax` only if the sum is at least `10^(emax+34)`) — including the
   cancellation `10^6145 − 5·10^6143` that needs the second turn of the loop (example below); an exponent `e3 < emin` only
   occurs in Cases (4)–(6) and is handled by the underflow path like any other.
+
+  Second part: the block's tail (`delta ≤ 1`, opposite signs) is, by `rfl`, the C19GenDpd agent's `arm26K`, whose theorems rest on
+  `C02GenFmaLow.add_and_round_spec`; with it `midBlock_total_spec` / `midBlock_total_spec_wide`: the whole block, both uses, no
+  case condition.
 -/
 import DecProofs.Properties.C02GenFmaMidTop
 import DecProofs.Properties.C02GenFmaMidBW
+import DecProofs.Properties.C02GenFmaWrapClosed
 
 set_option linter.unusedSimpArgs false
 set_option linter.unusedVariables false
@@ -28,6 +33,8 @@ open Dec.Rs Dec.Gen.Code
 open Dec.C03GenCompare (val128 val256)
 open Dec.C02GenCorrection (modeOf)
 open Dec.C02GenFmaMidBW (setupK_spec_wide case_test_entry_wide setup_link_wide)
+open Dec.C02GenFmaWrap (arm26K arm26_spec_closed)
+open Dec.C02GenFmaSwap (sgnW)
 
 set_option maxRecDepth 20000 in
 set_option maxHeartbeats 2000000 in
@@ -124,5 +131,130 @@ example : EntryInvW ⟨1, 0⟩ ⟨0x9c60ad8500000000, 0x18a6e32246c9, 0, 0⟩ 1 
 /-- what the specification says there: `9500000000000000000000000000000000e6111`, exact -/
 example : addFin .rne true 500000000000000000000000000000000 6111 false 1 6145 6111 =
     (.fin false 9500000000000000000000000000000000 6111, 0) := by decide +kernel
+
+/-! ## The tail (lines 3161–3206): `delta ≤ 1` with opposite signs
+
+`tailK` IS the C19GenDpd agent's `arm26K` (C02GenFmaWrap), by `rfl`: nothing had to be proved again; the arm's theorems
+(`arm26_spec_closed`, `arm26_fma_closed`, `arm26_fma_swapped_closed` of C02GenFmaWrapClosed, which rest on
+`C02GenFmaLow.add_and_round_spec`) are theorems about the block's tail.  Below they are restated in the block's own terms, and
+joined with `midBlock_spec` / `midBlock_spec_wide` into theorems about the whole block without a case condition. -/
+
+/-- **the block's tail is `arm26K`**, literally -/
+theorem tailK_eq_arm26K (p1 p2 p3 p4 : Bool) (rm : RoundingMode) (pf : UInt32) (res : U128) (z_sign p_sign tmp_sign : UInt64)
+    (C3 : U128) (C4 : U256) (q3 q4 e3 e4 ind delta p34 : Int32) (ML MG L G : Bool) (P128 : U128) :
+    tailK p1 p2 p3 p4 rm pf res z_sign p_sign tmp_sign C3 C4 q3 q4 e3 e4 ind delta p34 ML MG L G P128 =
+      arm26K q3 q4 e3 e4 delta p34 z_sign p_sign C3 C4 rm ML MG L G pf := rfl
+
+/-- a sign word, as the arm's theorems want it -/
+theorem sign_word_sgnW (w : UInt64) (s : Bool) (h : w.toNat = (if s = true then 1 else 0) * 2 ^ 63) : w = sgnW s := by
+  rw [← UInt64.toNat_inj, h]; cases s <;> rfl
+
+/-- `p34`, as a word -/
+theorem p34_word (p34 : Int32) (h : p34.toInt = 34) : p34 = 34 := by
+  rw [← Int32.toInt_inj, h]; rfl
+
+/-- **the tail, first use**: under `EntryInv` and the tail's condition (`delta ≤ 1`, opposite signs — cancellation of leading
+digits possible) the block returns the encoding of the specification's sum and the status word with its flags, for any
+incoming indicators -/
+theorem midBlock_cancel_spec (p1 p2 p3 p4 : Bool) (rm : RoundingMode) (pf : UInt32) (res : U128) (z_sign p_sign tmp_sign : UInt64)
+    (C3 : U128) (C4 : U256) (q3 q4 e3 e4 scale ind delta x0 p34 : Int32) (ML MG L G ML0 MG0 L0 G0 incr lsb tiny : Bool)
+    (R64 tmp64 : UInt64) (P128 R128 : U128) (P192 R192 : U192) (R256 : U256)
+    (c3 c4 : Nat) (E3 E4 : Int) (sz sp : Bool)
+    (h : EntryInv C3 C4 q3 q4 e3 e4 delta p34 z_sign p_sign c3 c4 E3 E4 sz sp)
+    (hcase : delta.toInt ≤ 1 ∧ sp ≠ sz) :
+    ∃ a b c d : Bool,
+      midBlock p1 p2 p3 p4 rm pf res z_sign p_sign tmp_sign C3 C4 q3 q4 e3 e4 scale ind delta x0 p34 ML MG L G
+          ML0 MG0 L0 G0 incr lsb tiny R64 tmp64 P128 R128 P192 R192 R256 =
+        .ok (Dec.C17GenNext.ofBits (encode (addFin (modeOf rm) sp c4 E4 sz c3 E3 (if E4 ≤ E3 then E4 else E3)).1), a, b, c, d,
+             pf ||| UInt32.ofNat (addFin (modeOf rm) sp c4 E4 sz c3 E3 (if E4 ≤ E3 then E4 else E3)).2) := by
+  rw [midBlock_tail p1 p2 p3 p4 rm pf res z_sign p_sign tmp_sign C3 C4 q3 q4 e3 e4 scale ind delta x0 p34 ML MG L G ML0 MG0 L0 G0
+    incr lsb tiny R64 tmp64 P128 R128 P192 R192 R256 c3 c4 E3 E4 sz sp h hcase, tailK_eq_arm26K,
+    sign_word_sgnW z_sign sz h.hzs, sign_word_sgnW p_sign sp h.hps, p34_word p34 h.hp34]
+  have e34 : P34 = 10 ^ 34 := by decide
+  have hq3 := Dec.C02GenFmaMidBW.q_le_34 h.hc3
+  have hq4 : ndigits c4 ≤ 68 := (ndigits_le_iff h.hc4.1).2 (by
+    have := h.hc4.2; rw [e34, ← Nat.pow_add] at this; exact this)
+  have hv3 : Dec.C02GenRound.v128 C3 = c3 := by rw [v128_val]; exact h.hC3
+  have hv4 : Dec.C02GenRound.v256 C4 = c4 := by rw [v256_val]; exact h.hC4
+  have := arm26_spec_closed rm pf sp sz C3 C4 (ndigits c3) (ndigits c4) E3 E4 q3 q4 e3 e4 delta ML MG L G h.hq3 h.hq4 hq3.1 hq3.2
+    (by rw [hv3]; exact h.hc3.1) (by rw [hv3]; exact lt_pow_ndigits c3) (ndigits_pos h.hc4.1) hq4
+    (by rw [hv4]; exact h.hc4.1) (by rw [hv4]; exact lt_pow_ndigits c4) (by have := h.hE3; omega) (by have := h.hE3; omega)
+    h.hE4.1 h.hE4.2 (Or.inl h.hE3.2) h.he3 h.he4 h.hdelta h.hdr.1 hcase.1 hcase.2
+  rw [hv3, hv4] at this
+  exact this
+
+/-- **the tail, second use** (after the exchange of product and addend): the same under `EntryInvW` -/
+theorem midBlock_cancel_spec_wide (p1 p2 p3 p4 : Bool) (rm : RoundingMode) (pf : UInt32) (res : U128) (z_sign p_sign tmp_sign : UInt64)
+    (C3 : U128) (C4 : U256) (q3 q4 e3 e4 scale ind delta x0 p34 : Int32) (ML MG L G ML0 MG0 L0 G0 incr lsb tiny : Bool)
+    (R64 tmp64 : UInt64) (P128 R128 : U128) (P192 R192 : U192) (R256 : U256)
+    (c3 c4 : Nat) (E3 E4 : Int) (sz sp : Bool)
+    (h : EntryInvW C3 C4 q3 q4 e3 e4 delta p34 z_sign p_sign c3 c4 E3 E4 sz sp)
+    (hcase : delta.toInt ≤ 1 ∧ sp ≠ sz) :
+    ∃ a b c d : Bool,
+      midBlock p1 p2 p3 p4 rm pf res z_sign p_sign tmp_sign C3 C4 q3 q4 e3 e4 scale ind delta x0 p34 ML MG L G
+          ML0 MG0 L0 G0 incr lsb tiny R64 tmp64 P128 R128 P192 R192 R256 =
+        .ok (Dec.C17GenNext.ofBits (encode (addFin (modeOf rm) sp c4 E4 sz c3 E3 (if E4 ≤ E3 then E4 else E3)).1), a, b, c, d,
+             pf ||| UInt32.ofNat (addFin (modeOf rm) sp c4 E4 sz c3 E3 (if E4 ≤ E3 then E4 else E3)).2) := by
+  rw [midBlock_tail_wide p1 p2 p3 p4 rm pf res z_sign p_sign tmp_sign C3 C4 q3 q4 e3 e4 scale ind delta x0 p34 ML MG L G ML0 MG0 L0 G0
+    incr lsb tiny R64 tmp64 P128 R128 P192 R192 R256 c3 c4 E3 E4 sz sp h hcase, tailK_eq_arm26K,
+    sign_word_sgnW z_sign sz h.hzs, sign_word_sgnW p_sign sp h.hps, p34_word p34 h.hp34]
+  have hq3 := Dec.C02GenFmaMidBW.q_le_34 h.hc3
+  have hq4 := Dec.C02GenFmaMidBW.q_le_34 h.hc4
+  have hv3 : Dec.C02GenRound.v128 C3 = c3 := by rw [v128_val]; exact h.hC3
+  have hv4 : Dec.C02GenRound.v256 C4 = c4 := by rw [v256_val]; exact h.hC4
+  have := arm26_spec_closed rm pf sp sz C3 C4 (ndigits c3) (ndigits c4) E3 E4 q3 q4 e3 e4 delta ML MG L G h.hq3 h.hq4 hq3.1 hq3.2
+    (by rw [hv3]; exact h.hc3.1) (by rw [hv3]; exact lt_pow_ndigits c3) hq4.1 (by have := hq4.2; omega)
+    (by rw [hv4]; exact h.hc4.1) (by rw [hv4]; exact lt_pow_ndigits c4) h.hE3.1 h.hE3.2
+    (by have := h.hE4; omega) (by have := h.hE4; omega) (Or.inr h.hE4.2) h.he3 h.he4 h.hdelta h.hdr.1 hcase.1 hcase.2
+  rw [hv3, hv4] at this
+  exact this
+
+/-- **the whole block, first use** (lines 2515–3206, Cases (2)–(6) with their tail): under `EntryInv`, with the indicators
+and `is_tiny` false on entry, for all signs, every rounding mode and every incoming status word the block returns `.ok`: the
+encoding of the specification's sum of product and addend, rounded once, and the status word with the specification's flags -/
+theorem midBlock_total_spec (p1 p2 p3 p4 : Bool) (rm : RoundingMode) (pf : UInt32) (res : U128) (z_sign p_sign tmp_sign : UInt64)
+    (C3 : U128) (C4 : U256) (q3 q4 e3 e4 scale ind delta x0 p34 : Int32) (ML0 MG0 L0 G0 incr lsb : Bool)
+    (R64 tmp64 : UInt64) (P128 R128 : U128) (P192 R192 : U192) (R256 : U256)
+    (c3 c4 : Nat) (E3 E4 : Int) (sz sp : Bool)
+    (h : EntryInv C3 C4 q3 q4 e3 e4 delta p34 z_sign p_sign c3 c4 E3 E4 sz sp) :
+    ∃ a b c d : Bool,
+      midBlock p1 p2 p3 p4 rm pf res z_sign p_sign tmp_sign C3 C4 q3 q4 e3 e4 scale ind delta x0 p34 false false false false
+          ML0 MG0 L0 G0 incr lsb false R64 tmp64 P128 R128 P192 R192 R256 =
+        .ok (Dec.C17GenNext.ofBits (encode (addFin (modeOf rm) sp c4 E4 sz c3 E3 (if E4 ≤ E3 then E4 else E3)).1), a, b, c, d,
+             pf ||| UInt32.ofNat (addFin (modeOf rm) sp c4 E4 sz c3 E3 (if E4 ≤ E3 then E4 else E3)).2) := by
+  by_cases hcase : delta.toInt ≤ 1 ∧ sp ≠ sz
+  · exact midBlock_cancel_spec p1 p2 p3 p4 rm pf res z_sign p_sign tmp_sign C3 C4 q3 q4 e3 e4 scale ind delta x0 p34 false false false
+      false ML0 MG0 L0 G0 incr lsb false R64 tmp64 P128 R128 P192 R192 R256 c3 c4 E3 E4 sz sp h hcase
+  · exact midBlock_spec p1 p2 p3 p4 rm pf res z_sign p_sign tmp_sign C3 C4 q3 q4 e3 e4 scale ind delta x0 p34 ML0 MG0 L0 G0 incr lsb
+      R64 tmp64 P128 R128 P192 R192 R256 c3 c4 E3 E4 sz sp h hcase
+
+/-- **the whole block, second use**: the same under the mirrored invariant `EntryInvW` -/
+theorem midBlock_total_spec_wide (p1 p2 p3 p4 : Bool) (rm : RoundingMode) (pf : UInt32) (res : U128) (z_sign p_sign tmp_sign : UInt64)
+    (C3 : U128) (C4 : U256) (q3 q4 e3 e4 scale ind delta x0 p34 : Int32) (ML0 MG0 L0 G0 incr lsb : Bool)
+    (R64 tmp64 : UInt64) (P128 R128 : U128) (P192 R192 : U192) (R256 : U256)
+    (c3 c4 : Nat) (E3 E4 : Int) (sz sp : Bool)
+    (h : EntryInvW C3 C4 q3 q4 e3 e4 delta p34 z_sign p_sign c3 c4 E3 E4 sz sp) :
+    ∃ a b c d : Bool,
+      midBlock p1 p2 p3 p4 rm pf res z_sign p_sign tmp_sign C3 C4 q3 q4 e3 e4 scale ind delta x0 p34 false false false false
+          ML0 MG0 L0 G0 incr lsb false R64 tmp64 P128 R128 P192 R192 R256 =
+        .ok (Dec.C17GenNext.ofBits (encode (addFin (modeOf rm) sp c4 E4 sz c3 E3 (if E4 ≤ E3 then E4 else E3)).1), a, b, c, d,
+             pf ||| UInt32.ofNat (addFin (modeOf rm) sp c4 E4 sz c3 E3 (if E4 ≤ E3 then E4 else E3)).2) := by
+  by_cases hcase : delta.toInt ≤ 1 ∧ sp ≠ sz
+  · exact midBlock_cancel_spec_wide p1 p2 p3 p4 rm pf res z_sign p_sign tmp_sign C3 C4 q3 q4 e3 e4 scale ind delta x0 p34 false false
+      false false ML0 MG0 L0 G0 incr lsb false R64 tmp64 P128 R128 P192 R192 R256 c3 c4 E3 E4 sz sp h hcase
+  · exact midBlock_spec_wide p1 p2 p3 p4 rm pf res z_sign p_sign tmp_sign C3 C4 q3 q4 e3 e4 scale ind delta x0 p34 ML0 MG0 L0 G0 incr
+      lsb R64 tmp64 P128 R128 P192 R192 R256 c3 c4 E3 E4 sz sp h hcase
+
+-- the tail on concrete operands: 1000000000000000000000000000000000 − 9999999999999999999999999999999999e−1 (`delta = 1`, first
+-- use): all but one digit cancel, 1e−1 exactly
+example : midBlock false false false false .NearestEven 0 ⟨0, 0⟩ 0 0x8000000000000000 0 ⟨0x38c15b0a00000000, 0x314dc6448d93⟩
+    ⟨0x378d8e63ffffffff, 0x1ed09bead87c0, 0, 0⟩ 34 34 0 (-1) 0 0 1 0 34
+    false false false false false false false false false false false 0 0 ⟨0, 0⟩ ⟨0, 0⟩ ⟨0, 0, 0⟩ ⟨0, 0, 0⟩ ⟨0, 0, 0, 0⟩ =
+    .ok (⟨0x1, 0x303e000000000000⟩, false, false, false, false, 0x0) := by decide +kernel
+-- second use, product's exponent below emin: 1234567e−6182 − 1e−6176 (`delta = 0`), rounding downward: 0e−6176 with underflow
+-- and inexact (the exact difference is 0.234567e−6176, rounded down)
+example : midBlock false false false false .Downward 0 ⟨0, 0⟩ 0 0x8000000000000000 0 ⟨0x12d687, 0⟩ ⟨1, 0, 0, 0⟩ 7 1 (-6182) (-6176) 0 0 0 0 34
+    false false false false false false false false false false false 0 0 ⟨0, 0⟩ ⟨0, 0⟩ ⟨0, 0, 0⟩ ⟨0, 0, 0⟩ ⟨0, 0, 0, 0⟩ =
+    .ok (⟨0x0, 0x0⟩, false, false, true, false, 0x30) := by decide +kernel
 
 end Dec.C02GenFmaMid
